@@ -2,7 +2,7 @@
    Property theorems only; proofs are in Proofs/TimeProofs.v. The buffer constant comes from
    the generated Gen/Consts.v (read from common/time.go on every run). *)
 From Coq Require Import ZArith.
-From DV Require Import Model.Time Proofs.TimeProofs Gen.Consts.
+From DV Require Import Model.Time Model.TimeFloat Proofs.TimeProofs Proofs.TimeFloatProofs Gen.Consts.
 Open Scope Z_scope.
 
 (* obligation tied to the source: the reserved time buffer is what the proofs need *)
@@ -57,6 +57,20 @@ Theorem C16_before_genesis : forall now p g, now < g ->
   next_round now p g = (1, g) /\ current_round now p g = 1.
 Proof. exact before_genesis. Qed.
 Print Assumptions C16_before_genesis.
+
+(* The implementation divides in IEEE-754 binary64 (float64(now-genesis) / period.Seconds(), then
+   math.Floor): for elapsed times and periods below 2^53 (the property asks 2^50 and 2^32) the
+   executable binary64 model returns exactly what the integer model returns, so the theorems
+   above hold of the float computation.  This is the only place where the classical axioms of
+   the real-number library appear (Flocq's rounding theory is stated over R). *)
+Theorem C16_float_division : forall now p g, 0 < p < 2 ^ 53 -> now - g < 2 ^ 53 ->
+  next_round_f now p g = next_round now p g /\ current_round_f now p g = current_round now p g.
+Proof. intros now p g Hp Hn. split; [apply next_round_f_eq|apply current_round_f_eq]; assumption. Qed.
+Print Assumptions C16_float_division.
+
+Theorem C16_float_floor_div_exact : forall a b, 0 <= a < 2 ^ 53 -> 0 < b < 2 ^ 53 -> fdiv_floor a b = a / b.
+Proof. exact fdiv_floor_exact. Qed.
+Print Assumptions C16_float_floor_div_exact.
 
 (* non-vacuity: a concrete instance of the premises and of a non-error, non-trivial value *)
 Example C16_nonvacuous :
